@@ -182,6 +182,47 @@ func evalCase(c *Case, drv *lib.Driver, guard bool) *caseResult {
 			what: "the write of the stored L1 head failed, yet the listener was told about the new head and the client went on"})
 	}
 	liveFault := cr.obs.DBFaultFired && cr.obs.DBFaultMark >= 0 && cr.obs.DBFaultMark < len(cr.obs.Marks) && !cr.obs.Marks[cr.obs.DBFaultMark].PreWatch
+	// A failed read / write of the stored head during a LIVE poll: setL1Head has already dropped the finalised
+	// candidate from its buffer, so a client that carries on can never record it. The code ends Run with the
+	// error (the node stops and the start-up scan of the next life finds the event again); a client that swallows
+	// the error and keeps polling must at least end with the head the property demands - in the dbfault family
+	// (canonical history, no removal notices) the delivered log with the highest L1 block at or below the last
+	// finalised height.
+	if c.Family == "dbfault" && liveFault && !cr.obs.EndedEarly && cr.obs.Stalled == "" {
+		var lastFin uint64
+		var logs []Log
+		logs = append(logs, c.Hist...)
+		for _, op := range c.Ops {
+			switch op.Kind {
+			case "fin":
+				if op.Fin > lastFin {
+					lastFin = op.Fin
+				}
+			case "send":
+				logs = append(logs, op.Logs...)
+			}
+		}
+		var top *Log
+		for i := range logs {
+			l := &logs[i]
+			if l.Removed || l.L1 > lastFin {
+				continue
+			}
+			if top == nil || l.L1 > top.L1 || (l.L1 == top.L1 && l.L2 > top.L2) {
+				top = l
+			}
+		}
+		if top != nil {
+			want := &HeadJ{L2: top.L2, Hash: top.Hash, Root: top.Root}
+			if !headEq(cr.obs.FinalHead, want) {
+				cr.findings = append(cr.findings, finding{sig: "l1head-stale-while-client-runs-on-after-failed-database-operation",
+					what: fmt.Sprintf("a read / write of the stored L1 head failed during a poll, Run did not return, and at the end the stored head is %s "+
+						"although the delivered, never removed log of L1 block %d (Starknet block %d) is at or below the finalised height %d: "+
+						"the poll that failed had already dropped it from the buffer, no later poll can record it",
+						cr.obs.FinalHead.String(), top.L1, top.L2, lastFin)})
+			}
+		}
+	}
 	if cr.obs.EndedEarly && !c.ChainIDMismatch && !liveFault {
 		cr.mismatches = append(cr.mismatches, lib.Mismatch{Sig: "run-returned-before-cancel", Input: c, Impl: cr.obs.RunErr})
 	}
